@@ -381,6 +381,15 @@ def apply_splices(body, splices, log, what):
         rx = re.compile(anchor, re.M)
         m = rx.search(body)
         if not m:
+            # the anchored statement was edited: retry on `let (<rem>, <name>) = <anything>;` - the hint then still lands
+            # after the statement binding <name>, and a changed right-hand side fails an OBLIGATION instead of the extraction
+            lm = re.match(r"(let \\\((?:\w+|\(\\w\+\)), \w+\\\) = )", anchor)
+            if lm:
+                rx = re.compile(lm.group(1) + r"[^;]*;", re.M)
+                m = rx.search(body)
+                if m:
+                    log.append("splice anchor /%s/ not found verbatim; loosened to the binding statement" % anchor)
+        if not m:
             raise AnchorLost("splice anchor %r lost in %s" % (anchor, what))
         eol = body.find("\n", m.end())
         if sp.get("inline"):
